@@ -1,10 +1,17 @@
 ENGINES = [
+    {"name": "vkit (E4)", "path": "/verif/harness/revocation", "serves_properties": ["C09", "C10", "C11"], "kind_free_text": "explicit-state search where a state is the operation history reaching it; successors replay the history on fresh real objects plus one operation; a boring Go reference model is stepped alongside"},
     {"name": "vsched (E1) + vinstr", "path": "/verif/engine/vsched", "serves_properties": ["C07", "C16", "C20"], "kind_free_text": "controlled cooperative scheduler over real goroutines with enabledness computed from channel/lock state, stateless DFS with iterative preemption bounding, replay with divergence detection; /verif/cmd/vinstr rewrites the current /repo sources (AST) to insert the scheduling points"},
     {"name": "venv (E3)", "path": "/verif/engine/venv", "serves_properties": ["C01"], "kind_free_text": "scripted crypto/rand.Reader + seeded CPRNG: every random draw is a choice point; executions with 0,1,2 deviations (min/max/short/error) are enumerated"},
     {"name": "vkit (E2)", "path": "/verif/engine/vkit", "serves_properties": ["C01", "C02", "C03", "C04", "C05", "C15", "C19"], "kind_free_text": "bounded exhaustive enumeration of inputs/alterations with stable case indices, sharding and measured coverage"},
 ]
 NOT_BUILT_REASON = {}
 META = {
+    "C09": {
+        "engine": "vkit (E4)",
+        "technique": "explicit-state exploration of update-application histories on fresh real objects, stepped against an abstract (index, revokedAt) model",
+        "text": "For every history length H<=3 (thorough 5), every witness configuration (issue index, revocation position, optional second witness), every sequence of <=3 (thorough 4) update applications over the alphabet of all contiguous event windows plus zero-event and same-index-newer-time updates, with shared and with fresh Update objects, each history is replayed on fresh real objects and every transition is compared with the model: result class, monotone index, validity at the reported index, revoked-stays-revoked, bitwise-unchanged on failure.",
+        "note": "Toy 64-bit modulus, real ECDSA signatures. Histories beyond the bounds and 'random longer histories' of the quantifier are not explored (no sampling in this family).",
+    },
     "C16": {
         "engine": "vsched (E1) + vinstr",
         "technique": "stateless preemption-bounded exploration of the real worker/consumer code under a controlled scheduler (select readiness as data choices), scripted prime streams",
